@@ -1,7 +1,7 @@
-(** Proofs for the extra check X03: typehelper.ToSlice returns the elements of a slice, in order, as a fresh
+(** Proofs for the extra check X03: typehelper.ToSlice/values returns the elements of a slice, in order, as a fresh
     list of the same length, and panics exactly on the values that are not of kind slice. *)
 From Coq Require Import ZArith List Bool Lia.
-From Low Require Import Lib.BitSeq Model.TypeHelper Spec.TypeHelperSpec.
+From Low Require Import Lib.BitSeq Model.ToSliceValues Spec.ToSliceValuesSpec.
 Import ListNotations.
 Open Scope Z_scope.
 
